@@ -286,7 +286,21 @@ func crossProcess(t *testing.T, name string, cases []Case, renders []string) {
 func multiDefect(t *rapid.T, p *model.Project) {
 	n := rapid.IntRange(0, 3).Draw(t, "defects")
 	for i := 0; i < n; i++ {
-		switch rapid.IntRange(0, 8).Draw(t, "defect") {
+		switch rapid.IntRange(0, 9).Draw(t, "defect") {
+		case 9: // broken types whose names differ only in the case of their letters (any ordering of names that folds case leaves them tied)
+			kind := rapid.IntRange(0, 2).Draw(t, "casekind")
+			for _, nm := range []string{fmt.Sprintf("@Pet%d", i), fmt.Sprintf("@pet%d", i), fmt.Sprintf("@PET%d", i)}[:rapid.IntRange(2, 3).Draw(t, "casecount")] {
+				var node *model.Node
+				switch kind {
+				case 0:
+					node = model.Obj().Add("owner", model.Ref("@nobody"+strings.ToLower(nm[1:])))
+				case 1:
+					node = model.Scalar("integer", "1", model.R("min", model.Num("2")))
+				default:
+					node = model.Obj().Add("k", model.Scalar("integer", "1", model.R("or", model.List(model.Set(model.R("type", model.Str("@gone"+nm[1:]))), model.Str("integer")))))
+				}
+				p.Types = append(p.Types, model.Type{Name: nm, Node: node})
+			}
 		case 5: // two types with the same text whose only defect sits in an unnamed (rule-set) type: same offsets, different files
 			p.Types = append(p.Types,
 				model.Type{Name: fmt.Sprintf("@ua%d", i), Node: model.Scalar("string", `"x"`, model.R("or", model.List(model.Set(model.R("type", model.Str("@unum")), model.R("nullable", model.Bool(true))), model.Set(model.R("type", model.Str("string"))))))},
